@@ -5,6 +5,7 @@
 set -u
 HERE="$(cd "$(dirname "${BASH_SOURCE[0]}")/.." && pwd)"
 SPEC="$1"; PID="$2"; shift 2
+[[ "$SPEC" != revert:* ]] && SPEC="$(readlink -f "$SPEC")"
 D=$(mktemp -d /tmp/yawv-mut-XXXXXX)
 trap 'rm -rf "$D"' EXIT
 mkdir -p "$D/repo" && cp -r /repo/src "$D/repo/src" && cp /repo/pyproject.toml "$D/repo/" 2>/dev/null
